@@ -4,12 +4,17 @@ A table definition is a vector of ~30 features (table / column / constraint
 names incl. mixed case, spaces, embedded double quotes and reserved words;
 1-3 columns x 7 types x nullable x server default; primary key none / single /
 composite / composite in non-column order / autoincrement, named or not;
-foreign key none / single / composite / self-referential with ON DELETE /
-ON UPDATE, named or not, to a parent table whose name and column names vary;
+foreign key none / single / composite / self-referential / two constraints,
+with every referential action SQLite accepts for ON DELETE and ON UPDATE
+(NO ACTION, RESTRICT, SET NULL, SET DEFAULT, CASCADE), [NOT] DEFERRABLE,
+INITIALLY DEFERRED / IMMEDIATE and a MATCH clause (accepted and ignored by
+SQLite, never reported), named or not, to a parent table whose name and column names vary;
 unique constraint, index plain / unique / partial / two-column, CHECK;
 main or ATTACHed schema).  Every definition within d feature deviations of
 three base tables (a minimal one, a "rich" one that has every kind of object, a
-"quoted" one with quoted names, schema and composite keys) is created on a fresh SQLite database with the real ``MetaData.create_all`` and
+"quoted" one with quoted names, schema and composite keys) is created on a fresh SQLite database with the real ``MetaData.create_all``;
+in addition the *full product* ON DELETE x ON UPDATE x DEFERRABLE x INITIALLY
+(x MATCH in the thorough tier) is run on the rich and the quoted base.  Then
 
 1. ``Inspector`` output (get_columns / get_pk_constraint / get_foreign_keys /
    get_unique_constraints / get_indexes) is compared feature by feature with
@@ -26,7 +31,15 @@ Mutations caught: (private copy of lib/, quick tier, each gave new VIOLATION sig
   * get_foreign_keys storing ON DELETE under options["onupdate"] -> inspector-fks: ondelete='CASCADE';
   * _resolve_type_affinity keeping only the first numeric argument -> inspector-columns: coltype='NUMERIC(5,2)';
   * engine/reflection.py _reflect_fk dropping fkey_d["options"] -> fixpoint-fks (ON DELETE lost on re-create);
-  * get_indexes ``unique=0`` -> inspector-ixs: ix='unique'.
+  * get_indexes ``unique=0`` -> inspector-ixs: ix='unique';
+  * ON-clause tokenizer ``re.split(r" *\\bON\\b *")`` without the word boundaries (splits inside ACTI-ON)
+    -> inspector-fks / recreate-error: ondelete='NO ACTION';
+  * the same split with ``maxsplit=1`` (second ON clause swallowed by the first)
+    -> inspector-fks: ondelete='CASCADE' onupdate='CASCADE';
+  * NO ACTION no longer normalised away for ON DELETE -> inspector-fks: ondelete='NO ACTION';
+  * RESTRICT / SET DEFAULT removed from FK_PATTERN -> inspector-fks: ondelete='RESTRICT' / 'SET DEFAULT';
+  * deferrable flag inverted -> inspector-fks / fixpoint-fks: deferrable=True;
+  * INITIALLY IMMEDIATE not matched -> inspector-fks: deferrable=True initially='IMMEDIATE'.
 """
 import itertools
 import sqlite3
@@ -54,15 +67,19 @@ META = dict(
     technique="deviation-bounded exhaustive enumeration of table definitions; create -> Inspector -> autoload -> re-create "
     "-> Inspector on real SQLite databases, compared with a definition-derived expectation and with each other (fixpoint)",
     design_ref="DESIGN.md §5 C15",
-    level_text="A table definition is a vector of 26 features (names of table / columns / constraints / referred table and "
+    level_text="A table definition is a vector of 29 features (names of table / columns / constraints / referred table and "
     "columns / schema from {plain, MixedCase, with space, embedded double quote, reserved word}; 1-3 columns x 7 types x "
-    "nullable x 4 server defaults; 5 primary-key shapes x 3 names; 5 foreign-key shapes x 4 names x ON DELETE x ON UPDATE; "
+    "nullable x 4 server defaults; 5 primary-key shapes x 3 names; 5 foreign-key shapes x 4 names x ON DELETE x ON UPDATE "
+    "(None + all five referential actions each) x DEFERRABLE x INITIALLY x MATCH; "
     "5 unique shapes; 6 index shapes; 4 CHECK shapes; main or ATTACHed schema). Every valid definition within 2 (quick) / "
     "3 (thorough) meaningful deviations of three base tables (minimal, rich = every object kind present, quoted = quoted "
     "names + schema + composite keys) is created with create_all on a fresh SQLite database; Inspector.get_columns / "
     "get_pk_constraint / get_foreign_keys / get_unique_constraints / get_indexes are compared with the expectation computed "
     "from the feature vector; the table is reflected with Table(autoload_with=), re-created on a second fresh database and "
-    "inspected again (incl. CHECK constraints): both inspections must be equal. Complete for the bound.",
+    "inspected again (incl. CHECK constraints): both inspections must be equal. The full product of "
+    "the foreign key options (6 x 6 x 3 x 3, thorough: x 3 MATCH values) is additionally run on the rich and the quoted "
+    "base. NO ACTION is expected to be absent from the reflected options (1.4 changelog, #4741), RESTRICT present. "
+    "Complete for the bound.",
     level_note="SQLite 3.40 only (the only executable backend): PostgreSQL / MariaDB reflection queries need a live "
     "catalog and are out of reach; SQLite has no comments. Autoincrement and CHECK text are judged by the fixpoint only. "
     "Trusted: the expectation function (60 lines) and the harness's own identifier quoting.",
@@ -70,7 +87,10 @@ META = dict(
     "(e.g. ON DELETE without a foreign key) are not counted; non-trivial = the created table has a foreign key, unique "
     "constraint, index or composite primary key (the regexp-driven parts of SQLite reflection run)",
     assumptions=["names contain no dot", "one child table and at most one parent table per database"],
-    bounds=dict(quick="all definitions within 2 deviations of 3 bases", thorough="all definitions within 3 deviations of 3 bases"),
+    bounds=dict(
+        quick="all definitions within 2 deviations of 3 bases + full FK option product (ON DELETE x ON UPDATE x DEFERRABLE x INITIALLY) on 2 bases",
+        thorough="all definitions within 3 deviations of 3 bases + full FK option product x MATCH on 2 bases",
+    ),
 )
 
 # ------------------------------------------------------------------ features
@@ -107,8 +127,12 @@ FEATURES = [
     ("pkname", [None, "pk_tbl", "Pk Mixed"]),
     ("fk", ["none", "single", "composite", "self", "two"]),
     ("fkname", [None, "fk_plain", "Fk Mixed", 'fk"q']),
-    ("ondelete", [None, "CASCADE", "SET NULL"]),
-    ("onupdate", [None, "CASCADE", "SET NULL"]),
+    # every referential action SQLite accepts (NO ACTION is the SQL default: documented as *not* reported)
+    ("ondelete", [None, "CASCADE", "SET NULL", "NO ACTION", "RESTRICT", "SET DEFAULT"]),
+    ("onupdate", [None, "CASCADE", "SET NULL", "NO ACTION", "RESTRICT", "SET DEFAULT"]),
+    ("deferrable", [None, True, False]),
+    ("initially", [None, "DEFERRED", "IMMEDIATE"]),
+    ("match", [None, "FULL", "SIMPLE"]),  # accepted and ignored by SQLite, not reported; must not disturb the rest
     ("pname", ["par", "MixedPar", "par space", 'par"q']),
     ("pcols", ["plain", "mixed", "space"]),
     ("uq", ["none", "unnamed", "named", "named_mixed", "multi"]),
@@ -171,7 +195,11 @@ def relevant(a):
     if pk in ("single", "composite", "composite_rev"):
         rel.add("pkname")
     if a["fk"] != "none":
-        rel |= {"fkname", "ondelete", "onupdate"}
+        rel |= {"fkname", "ondelete", "onupdate", "deferrable", "match"}
+        if a["deferrable"] is not None:
+            rel.add("initially")
+        elif a["initially"] is not None:
+            return None  # SQLite's grammar has INITIALLY only after [NOT] DEFERRABLE
         if a["fk"] in ("composite", "two") and n < 2:
             return None
         if a["fk"] == "self":
@@ -225,7 +253,14 @@ def define(a):
         args.append(PrimaryKeyConstraint(*[names[i] for i in pkcols], name=a["pkname"]))
     fk = a["fk"]
     if fk != "none":
-        okw = dict(name=a["fkname"], ondelete=a["ondelete"], onupdate=a["onupdate"])
+        okw = dict(
+            name=a["fkname"],
+            ondelete=a["ondelete"],
+            onupdate=a["onupdate"],
+            deferrable=a["deferrable"],
+            initially=a["initially"],
+            match=a["match"],
+        )
         if fk == "self":
             args.append(ForeignKeyConstraint([last(a)], [args[0]], **okw))  # target given as the Column object
         else:
@@ -320,10 +355,16 @@ def expected(a):
     fk = a["fk"]
     if fk != "none":
         opts = {}
-        if a["ondelete"]:
+        # changelog 1.4 (#4741): NO ACTION "is the default cascade ... and when detected is not included in the
+        # reflection dictionary"; RESTRICT "is positively stored"
+        if a["ondelete"] not in (None, "NO ACTION"):
             opts["ondelete"] = a["ondelete"]
-        if a["onupdate"]:
+        if a["onupdate"] not in (None, "NO ACTION"):
             opts["onupdate"] = a["onupdate"]
+        if a["deferrable"] is not None:
+            opts["deferrable"] = a["deferrable"]
+        if a["initially"] is not None:
+            opts["initially"] = a["initially"]
         if fk == "self":
             cc, rt, rc = [last(a)], a["tname"], [names[0]]
         elif fk in ("single", "two"):
@@ -496,10 +537,30 @@ def deviations(base, d):
                 yield feats, vals, a
 
 
+FKOPT = ("ondelete", "onupdate", "deferrable", "initially")
+
+
+def fk_option_product(base, with_match):
+    """the full product of every ON DELETE x ON UPDATE x DEFERRABLE x INITIALLY value (x MATCH) on one base table"""
+    feats = FKOPT + (("match",) if with_match else ())
+    for vals in itertools.product(*[FVALS[f] for f in feats]):
+        a = dict(base)
+        a.update(zip(feats, vals))
+        if relevant(a) is None:
+            continue
+        dev = [(f, v) for f, v in zip(feats, vals) if base[f] != v]
+        yield tuple(f for f, _ in dev), tuple(v for _, v in dev), a
+
+
 def shards(tier, seed):
     d = 2 if tier == "quick" else 3
     parts = 8 if tier == "quick" else 96
-    return [(b, d, p, parts) for b in BASES for p in range(parts)]
+    out = [(b, d, p, parts) for b in BASES for p in range(parts)]
+    # full product of the foreign key options on the rich base (single-column named FK) and the quoted base
+    # (composite unnamed FK in an attached schema); thorough also crosses MATCH
+    for b in ("rich", "quoted"):
+        out += [(b, "fkopts", p, 4) for p in range(4)]
+    return out
 
 
 NAME_CLASS = dict(tname="table name", pname="referred table name", fkname="foreign key name", pkname="primary key name")
@@ -515,6 +576,8 @@ def sig_of(kind, a):
     dq = sorted({NAME_CLASS.get(f, "column name") for f, v in devs if isinstance(v, str) and '"' in v and f.endswith("name")})
     if dq:
         return "%s: identifier with embedded double quote (%s)" % (kind, ", ".join(dq))
+    if any(f == "match" for f, _ in devs):
+        return "%s: foreign key with a MATCH clause" % kind
     parts = []
     for f, v in devs:
         if f == "ncols":
@@ -558,12 +621,15 @@ def minimise(a, kind):
 def run_shard(shard, tier, rec):
     base, d, p, parts = shard
     reported = {}
-    for idx, (feats, vals, a) in enumerate(deviations(BASES[base], d)):
+    gen = fk_option_product(BASES[base], tier == "thorough") if d == "fkopts" else deviations(BASES[base], d)
+    for idx, (feats, vals, a) in enumerate(gen):
         if idx % parts != p:
             continue
         res, stats = check_case(a)
         nontriv = bool(stats.get("obs")) and (bool(stats["obs"]["fks"]) or bool(stats["obs"]["uqs"]) or bool(stats["obs"]["ixs"]) or len(stats["obs"]["pk"]["constrained_columns"]) > 1)
         rec.case((base, feats, vals), nontrivial=nontriv)
+        if d == "fkopts":
+            rec.count("fk_option_product_cases")
         rec.outcome(repr(stats.get("obs")))
         rec.count("cases_with_reflection_warnings", 1 if stats.get("warnings") else 0)
         if nontriv and len(feats) >= 2 and idx % 499 == 7:
